@@ -400,8 +400,9 @@ func snap(b *backend, dbKey string) string {
 // ---------- the API as a reader ----------
 
 type apiConn struct {
-	h  api.DatabaseAPI
-	ch chan []byte
+	h     api.DatabaseAPI
+	ch    chan []byte
+	stash []apiMsg // replies to other operations than the awaited one (feed messages)
 }
 
 func newAPIConn() *apiConn {
@@ -437,14 +438,19 @@ func parseAPIMsg(m []byte) apiMsg {
 
 var errGuard = errors.New("no terminal reply from the database API within the guard time")
 
-// await reads replies until one of the terminal types arrives.
-func (a *apiConn) await(collect *[]apiMsg, terminal ...string) (apiMsg, error) {
+// await reads the replies to operation op until one of the terminal types arrives;
+// replies to other operations (the feed of an open subscription) are stashed.
+func (a *apiConn) await(op string, collect *[]apiMsg, terminal ...string) (apiMsg, error) {
 	guard := time.NewTimer(guardWait)
 	defer guard.Stop()
 	for {
 		select {
 		case raw := <-a.ch:
 			m := parseAPIMsg(raw)
+			if m.op != op {
+				a.stash = append(a.stash, m)
+				continue
+			}
 			if collect != nil {
 				*collect = append(*collect, m)
 			}
@@ -466,7 +472,7 @@ func (a *apiConn) cancel(op string, collect *[]apiMsg) error {
 	deadline := time.Now().Add(guardWait)
 	for {
 		a.h.Handle([]byte(op + "|cancel"))
-		m, err := a.await(collect, "done", "error")
+		m, err := a.await(op, collect, "done", "error")
 		if err != nil {
 			return err
 		}
@@ -727,7 +733,7 @@ func runCell(cell Cell, idx int64) (res result) {
 				sub = s
 			case "api:sub":
 				res.calls++
-				conn.h.Handle([]byte("1|sub|query " + b.db + ":" + dir))
+				conn.h.Handle([]byte("2|sub|query " + b.db + ":" + dir))
 				deadline := time.Now().Add(guardWait)
 				for !database.VerifHasSub(b.db, dir) {
 					select {
@@ -740,7 +746,7 @@ func runCell(cell Cell, idx int64) (res result) {
 					}
 					runtime.Gosched()
 				}
-				res.trace = append(res.trace, "api 1|sub|query dir -> registered")
+				res.trace = append(res.trace, "api 2|sub|query dir -> registered")
 			}
 		}
 		if err := step(st.name, st.do()); err != nil {
@@ -821,7 +827,7 @@ func runCell(cell Cell, idx int64) (res result) {
 	apiWrite := func(msg string) {
 		res.calls++
 		conn.h.Handle([]byte(msg))
-		m, err := conn.await(nil, "success", "error")
+		m, err := conn.await("1", nil, "success", "error")
 		if err != nil {
 			res.engineErr = fmt.Sprintf("%s: %v", cell, err)
 			return
@@ -925,7 +931,7 @@ func runCell(cell Cell, idx int64) (res result) {
 		case "api:get":
 			res.calls++
 			conn.h.Handle([]byte("1|get|" + fullT))
-			m, err := conn.await(nil, "ok", "error")
+			m, err := conn.await("1", nil, "ok", "error")
 			if err != nil {
 				res.engineErr = fmt.Sprintf("%s: %v", cell, err)
 				break
@@ -942,7 +948,7 @@ func runCell(cell Cell, idx int64) (res result) {
 			res.calls++
 			var msgs []apiMsg
 			conn.h.Handle([]byte("1|query|query " + b.db + ":" + dir))
-			m, err := conn.await(&msgs, "done", "error")
+			m, err := conn.await("1", &msgs, "done", "error")
 			if err != nil {
 				res.engineErr = fmt.Sprintf("%s: %v", cell, err)
 				break
@@ -954,19 +960,21 @@ func runCell(cell Cell, idx int64) (res result) {
 		case "api:sub":
 			res.checkMod = false
 			postWrites()
-			if err := conn.cancel("1", &apiFeed); err != nil {
+			if err := conn.cancel("2", &apiFeed); err != nil {
 				res.engineErr = fmt.Sprintf("%s: %v", cell, err)
 				break
 			}
+			apiFeed = append(append([]apiMsg{}, conn.stash...), apiFeed...)
+			nBefore := len(res.leaks)
 			apiFeedJudge(apiFeed)
-			res.success = len(res.leaks) > 0
+			res.success = len(res.leaks) > nBefore
 			res.outcome = "api-feed-done"
-			res.trace = append(res.trace, fmt.Sprintf("api 1|cancel -> %d replies, done", len(apiFeed)))
+			res.trace = append(res.trace, fmt.Sprintf("api 2|cancel -> %d replies, done", len(apiFeed)))
 		case "api:qsub":
 			res.checkMod = false
 			res.calls++
-			conn.h.Handle([]byte("1|qsub|query " + b.db + ":" + dir))
-			m, err := conn.await(&apiFeed, "done", "error")
+			conn.h.Handle([]byte("2|qsub|query " + b.db + ":" + dir))
+			m, err := conn.await("2", &apiFeed, "done", "error")
 			if err != nil {
 				res.engineErr = fmt.Sprintf("%s: %v", cell, err)
 				break
@@ -977,14 +985,15 @@ func runCell(cell Cell, idx int64) (res result) {
 				break
 			}
 			postWrites()
-			if err := conn.cancel("1", &apiFeed); err != nil {
+			if err := conn.cancel("2", &apiFeed); err != nil {
 				res.engineErr = fmt.Sprintf("%s: %v", cell, err)
 				break
 			}
+			nBefore := len(res.leaks)
 			apiFeedJudge(apiFeed)
-			res.success = len(res.leaks) > 0
+			res.success = len(res.leaks) > nBefore
 			res.outcome = "api-feed-done"
-			res.trace = append(res.trace, fmt.Sprintf("api 1|qsub|query dir ... 1|cancel -> %d replies, done", len(apiFeed)))
+			res.trace = append(res.trace, fmt.Sprintf("api 2|qsub|query dir ... 2|cancel -> %d replies, done", len(apiFeed)))
 		case "api:create":
 			apiWrite("1|create|" + fullT + `|J{"Value":"vR"}`)
 		case "api:update":
